@@ -129,6 +129,10 @@ def gather_oracle(ctx, case, emitter, result):
     graph, req = case["graph"], case["req"]
     rp = {"table": case["table"], "graph": graph if len(graph) < 30 else "real table", "request": req, "emitter": emitter,
           "result": result}
+    if result[0] == "recursion":
+        ctx.fail("gather:%s:no-termination" % emitter,
+                 "gather_helper_code (%s) recursed without bound (RecursionError) on a helper table with a dependency cycle" % emitter, rp)
+        return
     if result[0] != "ok":
         if case.get("real"):
             ctx.fail("gather:%s:keyerror:%s" % (case["table"], result[1]),
@@ -190,7 +194,7 @@ def synth_graph(r):
 
 def gather_tie(ctx, r, data, ok, thorough):
     from tools import helpers_tie
-    cases = []
+    cases = list(read_corpus()[1])
     for t in ("C", "F", "L"):
         g = {k: list(v) for k, v in data["graphs"][t].items()}
         keys = sorted(g)
@@ -455,6 +459,12 @@ def table_oracle(ctx, info, data):
             ctx.fail("helpers:cycle:%s" % t, "%sHelpers has a dependency cycle: some helper is emitted before a helper it needs" % t,
                      {"table": t, "cycles": info.get({"C": "cHelpers", "F": "fHelpers", "L": "luaHelpers"}[t], {}).get("cycles")})
     from tools import extract_helpers
+    for t, hn, kn, nm in extract_helpers.undeclared_uses(data["graphs"], data.get("htext", {})):
+        ctx.fail("helpers:missing-dependency:%s:%s->%s" % (t, hn, kn),
+                 "%sHelpers[%r] calls %s, the function of helper %r, which is not among its (transitive) dependent_helpers: a file that "
+                 "requests only %r gets text using an undefined name" % (t, hn, nm, kn, hn),
+                 {"table": t, "helper": hn, "uses": nm, "of_helper": kn, "dependent_helpers": data["graphs"][t].get(hn),
+                  "replay": "gather_helper_code({%r: True}) and compile the collected sources" % hn})
     provided = {int(k): set(v) for k, v in data["provided"].items()}
     miss = extract_helpers.missing_placeholders(provided, data["entries"])
     if miss:
@@ -539,6 +549,10 @@ def gen_specs(r, thorough):
         lib = libgen.gen_lib(r, name="glib", language=lang)
         vn, vopts = GEN_VARIANTS[i % len(GEN_VARIANTS)] if i % 3 else ("base", [])
         lib.options = {}
+        if any(o.startswith("F_CFI") for o in vopts) and "std::vector" in lib.yaml():
+            # the statement table has no *_cfi entries for std::vector (upstream exercises F_CFI on strings and generic only):
+            # known finding vectors:shroud:SystemExit...; generated libraries do not repeat it
+            vn, vopts = "base", []
         specs.append(dict(tag="gen%d+%s" % (i, vn), config="gen", yaml_text=lib.yaml(), yaml_name="glib.yaml",
                           options=["wrap_python=false", "wrap_lua=false"] + vopts,
                           language=None, incdirs=[], header=hdrgen.header(lib), gen=True))
@@ -580,10 +594,10 @@ def excluded(spec, res, yaml_text):
 
 def compile_oracle(ctx, r, thorough):
     from tools import compile_oracle as co
-    specs = corpus_specs(thorough) + gen_specs(r, thorough)
+    specs = read_corpus()[0] + corpus_specs(thorough) + gen_specs(r, thorough)
     with pool() as ex:
         results = list(ex.map(co.job, specs))
-    stats, skipped, excl = {}, {}, {}
+    stats, skipped, excl, rejected = {}, {}, {}, {}
     ndup = []
     for spec, res in zip(specs, results):
         ctx.count(1)
@@ -592,7 +606,12 @@ def compile_oracle(ctx, r, thorough):
         rp = {"config": tag, "options": spec["options"], "language": spec.get("language"),
               "yaml": ytext if spec.get("gen") else spec["yaml"]}
         if res["exc"]:
-            ctx.fail("%s:shroud:%s" % (spec["config"], res["exc"].split(":")[0]),
+            etype, _, emsg = res["exc"].partition(": ")
+            if etype == "SystemExit" and emsg and not emsg.startswith("Error with template"):
+                # Shroud's own diagnostic exit: the description is rejected, it is not an accepted input
+                rejected[tag] = emsg[:120]
+                continue
+            ctx.fail("%s:shroud:%s:%s" % (spec["config"], etype, re.sub(r"\s+", " ", emsg)[:80]),
                      "Shroud failed on an admitted description (%s): %s" % (tag, res["exc"]), dict(rp, stdout=res["stdout"]))
             continue
         if spec["config"] in EXCLUDE_COMPILE:
@@ -623,9 +642,51 @@ def compile_oracle(ctx, r, thorough):
         "configurations": len(specs), "corpus": sum(1 for s in specs if not s.get("gen")), "generated": sum(1 for s in specs if s.get("gen")),
         "files_by_tool_status": {"%s/%s" % k: v for k, v in sorted(stats.items())},
         "skipped": skipped, "excluded_by_rule": dict(list(excl.items())[:40]), "excluded_count": len(excl),
-        "duplicate_include_lines_seen": ndup[:10],
+        "duplicate_include_lines_seen": ndup[:10], "rejected_with_diagnostic": rejected,
     })
     ctx.sample({"compile": {"configurations": len(specs), "ok_files": sum(v for k, v in stats.items() if k[1] == "ok")}})
+
+
+def read_corpus():
+    """corpus/c05.txt -> (extra compile specs, extra gather cases)"""
+    from tools import compile_oracle as co
+    from tools.gen import hdrgen, libgen
+    import yaml as _yaml
+    specs, cases = [], []
+    try:
+        lines = open(os.path.join(common.CORPUS, "c05.txt")).read().split("\n")
+    except OSError:
+        return specs, cases
+    allinc = co.corpus_incdirs()
+    for i, ln in enumerate(lines):
+        if not ln.strip() or ln.startswith("#"):
+            continue
+        kind, rest = ln.split(" ", 1)
+        if kind == "corpus":
+            name, opts = rest.split(" ")
+            for n, y, extra in shroudrun.CORPUS:
+                if n == name:
+                    o, lang, wv = shroudrun.parse_cmdline(extra)
+                    own = [d for d in allinc if os.path.basename(d) in (n, y)]
+                    specs.append(dict(tag="corpus-file:%s+%s" % (n, opts), config=n, yaml=shroudrun.corpus_yaml(y),
+                                      options=["debug_testsuite=true"] + o + ([] if opts == "-" else opts.split(",")), language=lang,
+                                      incdirs=own + [d for d in allinc if d not in own], write_version=wv))
+        elif kind == "gather":
+            t, rest2 = rest.split(" ", 1)
+            dec = json.JSONDecoder()
+            g, n1 = dec.raw_decode(rest2)
+            req, _ = dec.raw_decode(rest2[n1:].lstrip())
+            cases.append({"table": t, "graph": g, "req": req})
+        elif kind == "yaml":
+            lang, rest2 = rest.split(" ", 1)
+            text, n1 = json.JSONDecoder().raw_decode(rest2)
+            opts = rest2[n1:].strip()
+            d = _yaml.safe_load(text)
+            lib = libgen.Lib(d["library"], d.get("language", lang), d["declarations"])
+            specs.append(dict(tag="corpus-file:yaml%d" % i, config="gen", yaml_text=text, yaml_name=d["library"] + ".yaml",
+                              options=[] if opts in ("", "-") else opts.split(","), language=None, incdirs=[],
+                              header=hdrgen.header(lib), gen=True))
+    return specs, cases
 
 
 def run(ctx):
@@ -661,12 +722,6 @@ def run(ctx):
     gather_tie(ctx, r, data, ok, thorough)
     header_tie(ctx, r, ok, thorough)
     compile_oracle(ctx, r, thorough)
-    # corpus of past failures
-    try:
-        for ln in open(os.path.join(common.CORPUS, "c05.txt")):
-            pass
-    except OSError:
-        pass
 
 
 def replay(path):
